@@ -27,6 +27,7 @@ type inst struct {
 	routes  map[string][]*route // reference: prefix -> routes (insertion order irrelevant)
 	cmdErr  string              // a management command of this step was not answered with 200
 	scratch []byte              // reuse universes: the caller's decode buffer, shared by all calls
+	gone    map[uint64]bool     // faceforms universes: faces torn down through face.Table.Remove
 }
 
 type universe struct {
@@ -182,7 +183,15 @@ func newSys(u universe, fib string) *sys {
 										if explicit || fl != ci {
 											a.Flags = utils.IdPtr(fl)
 										}
-										if st, _ := fwmgmt.VerifCommand("rib", "register", a, ff.from); st != 200 {
+										st, _ := fwmgmt.VerifCommand("rib", "register", a, ff.from)
+										if ff.faceID != nil && *ff.faceID != 0 && in.gone[*ff.faceID] {
+											// the command names a face that no longer exists: refused, nothing changes
+											if st != 410 {
+												in.cmdErr = fmt.Sprintf("rib/register naming the removed face %d answered %d, not 410", *ff.faceID, st)
+											}
+											return
+										}
+										if st != 200 {
 											in.cmdErr = fmt.Sprintf("rib/register answered %d", st)
 										}
 										ref(in)
@@ -244,6 +253,28 @@ func newSys(u universe, fib string) *sys {
 	}
 	for _, f := range u.faces {
 		f := f
+		if u.faceforms {
+			// the real teardown entry point: what faces/destroy and a stopping link service call. It
+			// may run more than once for one face (destroy, then the link service's own exit), and
+			// the application behind the face may get a command in between.
+			add(fmt.Sprintf("Teardown(f%d)", f), func(in *inst) {
+				face.FaceTable.Remove(f)
+				in.gone[f] = true
+				for p, rs := range in.routes {
+					var keep []*route
+					for _, r := range rs {
+						if r.face != f {
+							keep = append(keep, r)
+						}
+					}
+					if len(keep) == 0 {
+						delete(in.routes, p)
+					} else {
+						in.routes[p] = keep
+					}
+				}
+			})
+		}
 		add(fmt.Sprintf("FaceDown(f%d)", f), func(in *inst) {
 			table.Rib.CleanUpFace(f)
 			for p, rs := range in.routes {
@@ -285,7 +316,7 @@ func (s *sys) New() any {
 	if s.u.faceforms {
 		face.VerifC06SetFaces(s.u.faces)
 	}
-	return &inst{routes: map[string][]*route{}}
+	return &inst{routes: map[string][]*route{}, gone: map[uint64]bool{}}
 }
 
 func (s *sys) Ops(any) []explore.Op { return s.ops }
@@ -476,6 +507,14 @@ func (s *sys) Canon(i any) string {
 		}
 		sort.Strings(rs)
 		fmt.Fprintf(&b, "%s%v;", p, rs)
+	}
+	if len(in.gone) > 0 {
+		g := []int{}
+		for f := range in.gone {
+			g = append(g, int(f))
+		}
+		sort.Ints(g)
+		fmt.Fprintf(&b, "gone%v;", g)
 	}
 	nodes, aux := table.VerifDumpFib(table.FibStrategyTable)
 	fmt.Fprintf(&b, "#%v%v#%v", nodes, aux, table.VerifDumpRib())
